@@ -65,3 +65,7 @@ LEVEL_NOTE = ('Trusted: the float-geometry neighbour computation in '
               'enumerated.')
 TECHNIQUE = ('deterministic simulation: seeded operation-history search with '
              'a geometric neighbour oracle after every step, ddmin replay')
+
+
+def evidence_extra(cov):
+    return {'small_config_state_coverage': l0common.small_config_coverage(cov)}
